@@ -15,7 +15,7 @@ META = {
             "(intermediate n!/(n-k)! overflows), binomial after fixes/C17-1.patch returns C(n,k) whenever it is representable "
             "(C17_binomial_exact); trunc/round after fixes/C17-2/3.patch return the documented integer for every format, finite val, "
             "finite eps >= 0 (C17_trunc_round, over Flocq); classifiers are any/all.  The model is tied to float_cmp.cc / math.hh / fvector.hh on every run by "
-            "running the extracted model and the C++ templates (float, double; int32/uint32/int64/uint64) on identical "
+            "running the extracted model and the C++ templates (float, double, long double; int32/uint32/int64/uint64) on identical "
             "boundary-directed bit patterns and comparing bit-exactly, and by judging the C++ output with the exact-rational oracle.",
     "note": "Trusted: Coq kernel, Flocq, extraction, OCaml driver, C++ harness, g++ on x86-64 SSE2 (one rounding per operation, no FMA "
             "contraction), bit-pattern transport of operands.  long double is covered by the format-generic theorem only.",
@@ -29,7 +29,7 @@ ITYPES = {"i32": (True, 32), "u32": (False, 32), "i64": (True, 64), "u64": (Fals
 class Fmt:
     def __init__(self, name, w, prec, emax, pk, upk):
         self.name, self.w, self.prec, self.emax, self.pk, self.upk = name, w, prec, emax, pk, upk
-        self.hex = w // 4
+        self.hex = 20 if w == 79 else w // 4
         self.mw = prec - 1
         self.expmask = ((1 << (w - prec)) - 1) << self.mw
         self.sign = 1 << (w - 1)
@@ -39,25 +39,63 @@ class Fmt:
         self.one = self.bits(1.0)
 
     def bits(self, x):
-        """round-to-nearest bit pattern of the Python float / Fraction x (overflow -> inf)"""
-        x = float(x)
+        """round-to-nearest-even bit pattern of the Python float / Fraction x (overflow -> inf)"""
         if self.w == 64:
-            return struct.unpack("<Q", struct.pack("<d", x))[0]
-        try:
-            return struct.unpack("<I", struct.pack("<f", x))[0]
-        except OverflowError:
-            return self.inf | (self.sign if x < 0 else 0)
+            return struct.unpack("<Q", struct.pack("<d", float(x)))[0]
+        if self.w == 32:
+            try:
+                return struct.unpack("<I", struct.pack("<f", float(x)))[0]
+            except OverflowError:
+                return self.inf | (self.sign if x < 0 else 0)
+        # software rounding (long double: internal layout = 1 + 15 + 63 bits, integer bit implicit)
+        x = Fraction(x)
+        if x == 0:
+            return 0
+        sg = self.sign if x < 0 else 0
+        a = abs(x)
+        e = a.numerator.bit_length() - a.denominator.bit_length()
+        if Fraction(2) ** e > a:
+            e -= 1
+        emin = 3 - self.emax - self.prec
+        q = max(e - (self.prec - 1), emin)
+        sc = a / Fraction(2) ** q
+        m = sc.numerator // sc.denominator
+        rem = sc - m
+        if rem > Fraction(1, 2) or (rem == Fraction(1, 2) and m % 2 == 1):
+            m += 1
+        if m == 1 << self.prec:
+            m >>= 1; q += 1
+        if q + self.prec > self.emax:
+            return sg | self.inf
+        if m < 1 << self.mw:
+            return sg | m                                       # subnormal (q == emin)
+        return sg | ((q + self.mw + self.emax - 1) << self.mw) | (m - (1 << self.mw))
+
+    def frac(self, b):
+        """exact value of a finite pattern"""
+        if self.w in (32, 64):
+            return Fraction(self.val(b))
+        sg = -1 if b & self.sign else 1
+        eb = (b & self.expmask) >> self.mw
+        fr = b & ((1 << self.mw) - 1)
+        if eb == 0:
+            return sg * fr * Fraction(2) ** (3 - self.emax - self.prec)
+        return sg * (fr + (1 << self.mw)) * Fraction(2) ** (eb - (self.emax - 1) - self.mw)
 
     def val(self, b):
         if self.w == 64:
             return struct.unpack("<d", struct.pack("<Q", b))[0]
-        return struct.unpack("<f", struct.pack("<I", b))[0]
+        if self.w == 32:
+            return struct.unpack("<f", struct.pack("<I", b))[0]
+        if not self.isfin(b):
+            return float("nan") if b & ((1 << self.mw) - 1) else (float("-inf") if b & self.sign else float("inf"))
+        try:
+            return float(self.frac(b))
+        except OverflowError:
+            return float("inf")
 
     def isfin(self, b):
         return (b & self.expmask) != self.expmask
-
-    def frac(self, b):
-        return Fraction(self.val(b))
 
     def step(self, b, k):
         """k-th neighbour of a finite value in the ordered sequence of floats (saturating at +-max)"""
@@ -67,12 +105,23 @@ class Fmt:
         return (self.sign | -o) if o < 0 else o
 
     def h(self, b):
-        return "%0*x" % (self.hex, b)
+        if self.w != 79:
+            return "%0*x" % (self.hex, b)
+        se, fr = b >> 63, b & ((1 << 63) - 1)                   # explicit integer bit of the x87 format
+        return "%04x%016x" % (se, ((1 << 63) if se & 0x7fff else 0) | fr)
+
+    def unh(self, s):
+        x = int(s, 16)
+        if self.w != 79:
+            return x
+        return ((x >> 64) << 63) | (x & ((1 << 63) - 1))
 
 
 F32 = Fmt("32", 32, 24, 128, "<f", "<I")
 F64 = Fmt("64", 64, 53, 1024, "<d", "<Q")
-FMTS = {"32": F32, "64": F64}
+F80 = Fmt("80", 79, 64, 16384, None, None)        # long double (x87 extended), software rounding
+FMTS = {"32": F32, "64": F64, "80": F80}
+FLOATS = (F32, F64, F80)
 
 
 def special_values(f):
@@ -131,7 +180,7 @@ def near_partner(f, rng, style, eps, a):
 def gen_cmp(ctx, cases, tags):
     rng = ctx.rng("cmp")
     quick = ctx.quick
-    for f in (F32, F64):
+    for f in FLOATS:
         sv, ev = special_values(f), eps_values(f)
         # exhaustive special x special for the first epsilons, all styles
         for s in "wsa":
@@ -183,7 +232,7 @@ def gen_cmp(ctx, cases, tags):
 def gen_round(ctx, cases, tags):
     rng = ctx.rng("round")
     quick = ctx.quick
-    for f in (F32, F64):
+    for f in FLOATS:
         mach = Fraction(2) ** (1 - f.prec)
         ev = [f.bits(8 * float(mach)), f.bits(1e-6), 0, f.bits(1e-3), f.bits(0.25), f.bits(0.5), f.bits(float(mach)), f.bits(1.0), f.bits(0.01)]
         bases = [0, 1, 2, 3, 4, 7, 10, 100, 1000, 12345, 2 ** 20, 2 ** 23, 2 ** 24 - 1, 2 ** 24, 2 ** 31 - 1, 2 ** 31, 2 ** 32 - 1, 2 ** 32,
@@ -280,7 +329,7 @@ def gen_int(ctx, cases, tags):
                 cases.append("binom %s %d %d" % (t, n, kk)); tags.append("binom/large-n")
         for v in [0, 1, 2, lim, lim - 1] + ([-1, -2, -lim, -lim - 1] if sg else []) + [rng.randint(-lim if sg else 0, lim) for _ in range(20)]:
             cases.append("isign %s %d" % (t, v)); tags.append("isign")
-    for f in (F32, F64):
+    for f in FLOATS:
         for i in range(300 if quick else 5000):
             m = rng.choice(special_values(f)) if rng.random() < 0.2 else f.bits(rng.choice([1, -1]) * rng.choice([rng.random() * 3, rng.randint(0, 12), 1 + rng.random() * 1e-3, 10.0, 0.1]))
             p = rng.randint(-70, 70) if rng.random() < 0.8 else rng.choice([0, 1, -1, 2, -2, 200, -200, 1100, -1100])
@@ -291,7 +340,7 @@ def gen_int(ctx, cases, tags):
 
 def gen_cls(ctx, cases, tags):
     rng = ctx.rng("cls")
-    for f in (F32, F64):
+    for f in FLOATS:
         pool = [f.nan, f.nan | f.sign | 1, f.inf, f.inf | f.sign, 0, f.sign, 1, f.maxfin, f.one, f.bits(-2.5), f.expmask | 1]
         for v in pool:
             cases.append("cls %s s 1 %s" % (f.name, f.h(v))); tags.append("cls/scalar")
@@ -359,7 +408,7 @@ def gen_api(ctx, cases, tags):
                 for pw in list(range(0, 24, 1)) + ([] if E == "u" else [-1, -2, -5]):
                     if not crashes_impl("ipow", t, m, pw):
                         cases.append("ipowx %s %s %d %d" % (t, E, m, pw)); tags.append("ipowx")
-    for f in (F32, F64):
+    for f in FLOATS:
         cases.append("defeps %s" % f.name); tags.append("defeps")
         mach = 2.0 ** (1 - f.prec)
         ev = [f.bits(8 * mach), f.bits(1e-6), 0, f.bits(1e-3), f.bits(0.5), f.bits(mach)]
@@ -467,7 +516,7 @@ def sig_of(case, asfound_obs, impl_obs=None):
         return sig_of(" ".join([t[1], t[2], t[3], "w", "z", "0", t[7]]), asfound_obs, impl_obs).replace("C17:", "C17:defaulted-") if True else None
     if op in ("round", "trunc"):
         f = FMTS[t[1]]
-        v = int(t[6], 16)
+        v = f.unh(t[6])
         extra = ""
         if f.isfin(v) and abs(f.frac(v)) >= 2 ** f.prec:
             extra = ":ge2^prec"                 # int -> float conversion of lower+1 is no longer exact
@@ -494,7 +543,7 @@ def describe(case):
     out = []
     for x in t[2:]:
         if re.fullmatch(r"[0-9a-f]{%d}" % f.hex, x):
-            out.append(repr(f.val(int(x, 16))))
+            out.append(repr(f.val(f.unh(x))))
         else:
             out.append(x)
     return "%s<%s> %s" % (t[0], "float" if f.w == 32 else "double", " ".join(out))
@@ -615,7 +664,8 @@ def run(ctx):
                         "reported under the known-finding entry; the Euclid loop of the fixed binomial is modelled literally (C17_euclid_gcd)",
                         "x86-64 SSE2 arithmetic: each C++ floating operation is one IEEE round-to-nearest-even operation (no x87 excess precision, no FMA contraction)",
                         "operands are transported as bit patterns (memcpy), results of comparisons as booleans",
-                        "long double (x87 80 bit) is not instantiated in the harness; covered by the format-generic theorems only",
+                        "long double (x87 extended) IS instantiated: transported as 80-bit patterns, compared bit-exactly with the Flocq model at (prec, emax) = (64, 16384) "
+                        "(C17_cmp_algebra_x87, C17_trunc_round_x87, C17_default_eps_x87); assumes the default x87 precision control (64-bit significand)",
                         "cases the model calls undefined behaviour (signed overflow, division by zero, out-of-range float->int cast) are judged by the oracle only"]
 
 
